@@ -17,6 +17,7 @@ on witnesses under `namespace Neg`:
 import LinVerif.Lemmas.C16Row
 import LinVerif.Lemmas.C16Valid
 import LinVerif.Lemmas.C16Route
+import LinVerif.Lemmas.C16Escape
 import LinVerif.Generated.C16
 
 namespace LinVerif.Props.C16
@@ -556,6 +557,68 @@ theorem flatRebuildCalls_expected : Generated.C16.flatRebuildCalls =
   ["rowBuilder.AddTag", "rowBuilder.AddTag", "rowBuilder.AddSimpleField", "append", "append",
    "rowBuilder.AddCompoundFieldData", "rowBuilder.AddCompoundFieldMMSC", "rowBuilder.AddMetricName",
    "rowBuilder.AddTimestamp", "rowBuilder.AddNameSpace"] := rfl
+
+/-! ## line-protocol escaping (format agreement of the influx form) -/
+
+open LinVerif.Escape in
+theorem escape_nil (s : List Char) : escape [] s = s := by
+  induction s with
+  | nil => rfl
+  | cons a rest ih => simp [escape, ih]
+
+open LinVerif.Escape in
+/-- **influx_unescape_escape**: for EVERY string, the unescape passes of the parser (`,` then blank then `=`
+for tag keys, tag values and field keys; `,` then blank for the measurement) undo the conformant escaping. -/
+theorem influx_unescape_escape_tag (s : List Char) :
+    unescape [',', ' ', '='] (escape [',', ' ', '='] s) = s := by
+  simp only [unescape, List.foldl]
+  rw [unescapeOne_escape ',' [' ', '='] (by decide) (by decide) (by decide),
+    unescapeOne_escape ' ' ['='] (by decide) (by decide) (by decide),
+    unescapeOne_escape '=' [] (by decide) (by decide) (by decide), escape_nil]
+
+open LinVerif.Escape in
+theorem influx_unescape_escape_name (s : List Char) :
+    unescape [',', ' '] (escape [',', ' '] s) = s := by
+  simp only [unescape, List.foldl]
+  rw [unescapeOne_escape ',' [' '] (by decide) (by decide) (by decide),
+    unescapeOne_escape ' ' [] (by decide) (by decide) (by decide), escape_nil]
+
+open LinVerif.Escape in
+/-- **influx_scanner_stops_at_structural_delimiter**: for every representable string (every backslash run
+directly before one of its delimiter characters, and the run at its end, is even), whatever follows,
+walkToUnescapedChar for a delimiter `c` of the position walks over the whole escaped text and stops
+exactly at the structural `c` after it. Together with `influx_unescape_escape_*`: the token the
+parser extracts and unescapes is the string that was sent. -/
+theorem influx_scanner_stops_at_structural_delimiter (c : Char) (ds : List Char)
+    (hc : ds.contains c = true) (hbs : ds.contains bs = false) (s tail : List Char)
+    (hs : representable ds 0 s = true) :
+    splitAtUnescaped c 0 (escape ds s ++ c :: tail) = some (escape ds s, tail) :=
+  splitAtUnescaped_escape c ds hc hbs tail s 0 hs
+
+open LinVerif.Escape in
+/-- the restriction is necessary: a tag value ending in ONE backslash is not representable — its text
+`C:\` followed by the structural comma reads as an escaped comma and the scanner runs on; with TWO
+backslashes (`C:\\`) the comma is structural again (the witness of seeded change c16-6). -/
+example :
+    representable [',', ' ', '='] 0 "C:\\".toList = false ∧
+    splitAtUnescaped ',' 0 ("C:\\".toList ++ ",h=a ".toList) = none ∧
+    representable [',', ' ', '='] 0 "C:\\\\".toList = true ∧
+    splitAtUnescaped ',' 0 (escape [',', ' ', '='] "C:\\\\".toList ++ ",h=a ".toList) = some ("C:\\\\".toList, "h=a ".toList) := by
+  decide
+
+/-- the delimiter tables of the parser, in pass order -/
+theorem influxTagEscapeCodes_expected : Generated.C16.influxTagEscapeCodes = [',', ' ', '='] := by decide
+theorem influxMetricNameEscapeCodes_expected : Generated.C16.influxMetricNameEscapeCodes = [',', ' '] := by decide
+
+/-- `splitAtUnescaped`: a delimiter is escaped iff the backslash run before it (back to the scan start) is odd -/
+theorem influxWalkToUnescapedChar_expected : Generated.C16.influxWalkToUnescapedCharSrc =
+  "if len(buf) <= startAt { return -1 } ; for { offset := bytes.IndexByte(buf[startAt:], char) if offset < 0 { return -1 } if !isEscaped { return startAt + offset } cursor := offset + startAt for cursor-1 >= startAt && buf[cursor-1] == '\\\\' { cursor-- } if (offset+startAt-cursor)&1 == 1 { startAt += offset + 1 continue } return offset + startAt }" := rfl
+
+/-- `unescape`: one ReplaceAll pass per escape code, nothing else -/
+theorem influxUnescapeTag_expected : Generated.C16.influxUnescapeTagSrc =
+  "if bytes.IndexByte(in, '\\\\') == -1 { return in } ; for i := range tagEscapeCodes { c := &tagEscapeCodes[i] if bytes.IndexByte(in, c.k[0]) != -1 { in = bytes.ReplaceAll(in, c.esc[:], c.k[:]) } } ; return in" := rfl
+theorem influxUnescapeMetricName_expected : Generated.C16.influxUnescapeMetricNameSrc =
+  "if bytes.IndexByte(in, '\\\\') == -1 { return in } ; for i := range metricNameEscapeCodes { c := &metricNameEscapeCodes[i] if bytes.IndexByte(in, c.k[0]) != -1 { in = bytes.ReplaceAll(in, c.esc[:], c.k[:]) } } ; return in" := rfl
 
 /-- The variant of KeyValues.Less the code has selects the variant of `less` the driver runs
 (`Generated.C16.lessTieBreakOnValue`); the variant of the append path selects `appendAll`'s `clears`
